@@ -27,13 +27,13 @@ META = {
         "engine theorems are about the propositional instantiation of SolverStuff (ground and-or graphs)",
         "SLG unwinding is covered by crash-point sweeps on generated programs, not by a model",
     ],
-    "quick_s": 60, "thorough_s": 900,
+    "quick_s": 90, "thorough_s": 900,
 }
 
 
 def engine_part(ctx):
     rng = ctx.rng
-    n = ctx.n(60, 2500)
+    n = ctx.n(60, 400)
     base = []
     for i in range(n):
         shape, G = E.gen_graph(rng, E.SHAPES[i % len(E.SHAPES)] if i < 3 * len(E.SHAPES) else None)
@@ -108,7 +108,7 @@ SOLVERS = [("slg", H.SLG), ("rec", H.REC)]
 
 def solver_part(ctx):
     rng = ctx.rng
-    progs = H.programs(rng, ctx.n(3, 80), goals_per=(2, 1, 1))
+    progs = H.programs(rng, ctx.n(3, 20), goals_per=(2, 1, 1))
     c1, i1 = [], []
     for pi, (p, text, goals, gts) in enumerate(progs):
         for sname, solver in SOLVERS:
@@ -128,7 +128,7 @@ def solver_part(ctx):
                 N = calls.get((pi, sname, gi))
                 if not N or H.is_death(fresh[(pi, sname, gi)]):
                     continue
-                ns = list(range(min(N, ctx.n(200, 2000))))
+                ns = list(range(min(N, ctx.n(200, 200))))
                 if ctx.quick and len(ns) > 7:
                     stride = max(1, len(ns) // 4)
                     ns = sorted(set([0, 1, len(ns) - 1] + ns[::stride]))
